@@ -26,7 +26,9 @@ AmbAfter(a, p, am, r) ==
                 nu == am[a.i] \cup am[a.j] \cup {t \in Range(x.tr) \cap Range(y.tr) : EpiAt(x, t) # EpiAt(y, t)}
             IN IF a.op = "or" THEN Append(am, nu) ELSE [am EXCEPT ![a.i] = nu]
       [] a.op = "sub" -> Append(am, am[a.i])
-      [] a.op = "new" -> Append(am, {})
+      \* markers handed to the constructor under a key whose role lacks its colon: the triple is stored with the colon, and
+      \* whether the markers are then found under it is stated by no property (the pinned library does not look them up)
+      [] a.op = "new" -> Append(am, {ColonRole(t) : t \in {x \in Range(a.tr) : ColonRole(x) # x}})
       [] OTHER -> am
 
 \* compare one logged object with the specification's object; "" if all clauses hold
